@@ -251,7 +251,10 @@ sub_line_line (Ctx& c, uint64_t idx)
         c.sample (gcls, dpar);
         return;
     }
-    if (sind < 1e-3)
+    // the closest points are conditioned like eps/sin^2: judged while that is below ~0.1 for float (sin >= 1e-3) and, for
+    // double, down to sin = 1e-6 (eps/sin^2 = 2e-4) - a fixed 1e-3 for both types left the whole near-parallel range of
+    // double unjudged (seeded change C15-5)
+    if (sind < (sizeof (T) == 4 ? 1e-3 : 1e-6))
     {
         // below the conditioning limit of the property: only finiteness and on-line were judged
         c.cls ("nearly_parallel_unjudged");
@@ -260,7 +263,7 @@ sub_line_line (Ctx& c, uint64_t idx)
     }
     c.cls (gcls);
     if (std::strcmp (gcls, "nearly_parallel") == 0)
-        c.cls (sind < 3e-3 ? "nearly_parallel_sin<3e-3" : sind < 3e-2 ? "nearly_parallel_sin<3e-2" : "nearly_parallel_sin<1");
+        c.cls (sind < 1e-3 ? "nearly_parallel_sin<1e-3" : sind < 3e-3 ? "nearly_parallel_sin<3e-3" : sind < 3e-2 ? "nearly_parallel_sin<3e-2" : "nearly_parallel_sin<1");
 
     R        det = a11 * a22 - a12 * a12;
     R        b1 = -dot (u1, w), b2 = dot (u2, w);
